@@ -6,11 +6,20 @@
   (`evalFile`: the node list of the file evaluated directly, by variable NAME;
   `DddmpFile.WF`: well-formed files, with ANY numbering of the nodes).
 
-  The theorems use the specification of `find_or_add` as the hypothesis `FoaSpec`
-  (proved separately in `DDProofs/FindOrAdd.lean`), hence the names `…_of_foaSpec`.
+  The proofs in `DDProofs/DddmpProofs.lean` use the specification of `find_or_add` as the
+  hypothesis `FoaSpec` (names `…_of_foaSpec`); it is discharged here with
+  `findOrAddCore_spec` (`DDProofs/FindOrAdd.lean`), so the theorems below are unconditional.
 -/
 import DDProofs.DddmpProofs
+import DDProofs.DddmpHeader
+import DDProofs.FindOrAdd
 namespace DD
+
+/-- the specification of `find_or_add` assumed by `DDProofs/DddmpProofs.lean` holds -/
+theorem foaSpec : FoaSpec :=
+  ⟨fun m i v w hI hi hv hw hlv hlw => by
+    obtain ⟨r, m', he, hp⟩ := findOrAddCore_spec m hI i v w hi hv hw hlv hlw
+    exact ⟨r, m', he, hp.inv, hp.ext, hp.mem, hp.lvl, hp.den⟩⟩
 
 /-- a small file whose numbering differs from the order in which the loader recreates the
 nodes (the minimal reproduction of finding F1, since repaired): two roots `a` and `¬ b`,
@@ -46,24 +55,32 @@ theorem dddmpWitness_wf : dddmpWitness.WF := by
     · exact ⟨⟨2, .num 0, 0, 1, -1⟩, by simp [dddmpWitness], rfl⟩
     · exact ⟨⟨3, .num 1, 1, 1, -1⟩, by simp [dddmpWitness], rfl⟩
 
-/-- C16 (under `FoaSpec`): for a well-formed file — whatever numbering it uses for its
-nodes, with or without gaps in the levels, for each of the variable-identification modes
-0, 1, 3 — `dd.dddmp.load` succeeds, the manager satisfies the invariant (hence is
-canonical, C02), the loader's map sends every node number of the file to a reference that
-denotes, by variable name, what the node list says, and the returned `roots` denote (as a
-set of functions — `bdd.roots` is a `set`) exactly the root entries of the file -/
-theorem C16_load_spec_of_foaSpec (H : FoaSpec) (f : DddmpFile) (hf : f.WF) :
+/-- C16: for a well-formed file — whatever numbering it uses for its nodes, with or without
+gaps in the levels, for each of the variable-identification modes 0, 1, 3 —
+`dd.dddmp.load` succeeds, the manager satisfies the invariant (hence is canonical, C02),
+the loader's map sends every node number of the file to a reference that denotes, by
+variable name, what the node list says, and the returned `roots` denote (as a set of
+functions — `bdd.roots` is a `set`) exactly the root entries of the file -/
+theorem C16_load_spec (f : DddmpFile) (hf : f.WF) :
     ∃ m umap, loadDddmpU f = .ok (m, umap) ∧ loadDddmp f = .ok m ∧ Inv m ∧
       (∀ x ∈ f.nodes, ∃ r, dictGet umap x.u = some r ∧ m.tbl.Mem r ∧
         ∀ α, den m.tbl r (asgOf m.tbl α) = evalFile f α x.u) ∧
       DddmpRootsDenote f m :=
-  dddmpLoad_spec_of_foaSpec H f hf
+  dddmpLoad_spec_of_foaSpec foaSpec f hf
 
 /-- C16, the roots clause alone -/
-theorem C16_roots_of_foaSpec (H : FoaSpec) (f : DddmpFile) (hf : f.WF) :
+theorem C16_roots (f : DddmpFile) (hf : f.WF) :
     ∃ m, loadDddmp f = .ok m ∧ Inv m ∧ DddmpRootsDenote f m := by
-  obtain ⟨m, _, _, h, hi, _, hr⟩ := dddmpLoad_spec_of_foaSpec H f hf
+  obtain ⟨m, _, _, h, hi, _, hr⟩ := C16_load_spec f hf
   exact ⟨m, h, hi, hr⟩
+
+/-- C16, canonicity of the loaded manager spelled out: two references of the returned
+manager are equal exactly when they denote the same function -/
+theorem C16_canonical (f : DddmpFile) (hf : f.WF) :
+    ∃ m, loadDddmp f = .ok m ∧ ∀ u v, m.tbl.Mem u → m.tbl.Mem v →
+      ((∀ a, den m.tbl u a = den m.tbl v a) ↔ u = v) := by
+  obtain ⟨m, h, hi, _⟩ := C16_roots f hf
+  exact ⟨m, h, fun u v hu hv => canonical m.tbl hi.wf u v hu hv⟩
 
 /-- the assignment `a = true, b = false` -/
 def dddmpWitnessAsg : String → Bool := fun s => s == "a"
